@@ -142,8 +142,13 @@ class IndexFileParser(ABC):
                     shutil.copystat(compressed_file, file)
 
                     return True
-            except (lzma.LZMAError, OSError):
-                return False
+            except (lzma.LZMAError, OSError, EOFError, ValueError) as ex:
+                # Skipping the index silently would publish it without the
+                # files it references
+                raise RuntimeError(
+                    f"Unable to unpack index file {compressed_file}: "
+                    f"{ex.__class__.__qualname__}: {ex}"
+                ) from ex
 
         return file.exists()
 
